@@ -35,3 +35,7 @@ claim("C20",
       "Credit-conservation invariant peer_window + buffered_stdout + buffered_stderr + consumed_not_yet_granted == local_window over a two-ended ghost model: each real step (_feed, _feed_extended with a symbolic 32-bit type code, recv, recv_stderr) from an arbitrary state satisfying it is proved by z3/cvc5 to preserve it, pending credit stays <= threshold < window, a read makes progress when data is buffered, and drained buffers imply an open peer window (so a sender with pending data can always continue).",
       "Trusted: z3/cvc5 (cvc5 --solve-bv-as-int=sum decides the linear obligations z3 times out on), the induction argument, receive buffers as byte counters. A second case runs real BufferedPipes and real Message parsing on concrete sizes with a symbolic type code. Windows >= 32768 over the full 32-bit range.",
       design="7 (C20)", thorough=False)
+claim("C41",
+      "The real HostKeys.load/lookup/check/save/keys run on a symbolic known_hosts file (<=2 lines quick / <=3 thorough, 1..2 names per line, each name a solver-chosen letter in plain or hashed form, 2 key types x 2 key values, all solver variables): z3 proves lookup has a key of a type iff some line lists the name with that type, the first such line wins, check() is true exactly for that key, save+reload gives identical lookups, and a second load of the same file changes neither lookups, the key list nor the number of saved lines.",
+      "Trusted: z3; line text <-> entry conversion (regex split, base64, PKey.from_type_string) is replaced by a token table in symbolic runs and exercised for real only in counterexample replays; hashed names are modelled as an injective function of the name. Outside: comments/invalid lines, delete sequences, more than 3 lines.",
+      design="7 (C41)")
